@@ -12,6 +12,7 @@ type OrderedMap[K comparable, V any] struct {
 	tail       *Element[K, V]
 	dictionary *shrinkingmap.ShrinkingMap[K, *Element[K, V]]
 	size       int
+	generation uint64
 	mutex      sync.RWMutex
 }
 
@@ -87,6 +88,7 @@ func (o *OrderedMap[K, V]) Set(key K, newValue V) (previousValue V, previousValu
 	newElement := new(Element[K, V])
 	newElement.key = key
 	newElement.value = newValue
+	newElement.generation = o.generation
 
 	if o.head == nil {
 		o.head = newElement
@@ -109,18 +111,10 @@ func (o *OrderedMap[K, V]) ForEach(consumer func(key K, value V) bool) bool {
 		return true
 	}
 
-	o.mutex.RLock()
-	currentEntry := o.head
-	o.mutex.RUnlock()
-
-	for currentEntry != nil {
-		if !consumer(currentEntry.key, currentEntry.value) {
+	for currentEntry, key, value := o.iterate(nil, false); currentEntry != nil; currentEntry, key, value = o.iterate(currentEntry, false) {
+		if !consumer(key, value) {
 			return false
 		}
-
-		o.mutex.RLock()
-		currentEntry = currentEntry.next
-		o.mutex.RUnlock()
 	}
 
 	return true
@@ -133,21 +127,53 @@ func (o *OrderedMap[K, V]) ForEachReverse(consumer func(key K, value V) bool) bo
 		return true
 	}
 
-	o.mutex.RLock()
-	currentEntry := o.tail
-	o.mutex.RUnlock()
-
-	for currentEntry != nil {
-		if !consumer(currentEntry.key, currentEntry.value) {
+	for currentEntry, key, value := o.iterate(nil, true); currentEntry != nil; currentEntry, key, value = o.iterate(currentEntry, true) {
+		if !consumer(key, value) {
 			return false
 		}
-
-		o.mutex.RLock()
-		currentEntry = currentEntry.prev
-		o.mutex.RUnlock()
 	}
 
 	return true
+}
+
+// iterate returns the element that follows the given one in the direction of the iteration (the first one for nil),
+// together with its key and value. Everything is read under the lock: Set overwrites the value of an existing key in
+// place. The consumer of an iteration runs without the lock and may have removed the element the iteration stands on and
+// further ones (Delete, Clear); the links of a removed element are stale and can lead to elements that were removed as
+// well, which must not be visited.
+func (o *OrderedMap[K, V]) iterate(current *Element[K, V], reverse bool) (next *Element[K, V], key K, value V) {
+	o.mutex.RLock()
+	defer o.mutex.RUnlock()
+
+	switch {
+	case current == nil && reverse:
+		next = o.tail
+	case current == nil:
+		next = o.head
+	case current.generation != o.generation:
+		// the map was cleared: whatever it holds now was inserted later than the element the iteration stands on
+		if !reverse {
+			next = o.head
+		}
+	case reverse:
+		next = current.prev
+	default:
+		next = current.next
+	}
+
+	for next != nil && next.deleted {
+		if reverse {
+			next = next.prev
+		} else {
+			next = next.next
+		}
+	}
+
+	if next == nil {
+		return nil, key, value
+	}
+
+	return next, next.key, next.value
 }
 
 // Clear removes all elements from the OrderedMap.
@@ -162,6 +188,7 @@ func (o *OrderedMap[K, V]) Clear() {
 	o.head = nil
 	o.tail = nil
 	o.size = 0
+	o.generation++
 	o.dictionary = shrinkingmap.New[K, *Element[K, V]]()
 }
 
@@ -182,6 +209,7 @@ func (o *OrderedMap[K, V]) Delete(key K) bool {
 
 	o.dictionary.Delete(key)
 	o.size--
+	value.deleted = true
 
 	if value.prev != nil {
 		value.prev.next = value.next
